@@ -39,6 +39,8 @@ func init() {
 			c.floor("NILRECV", 0)
 		},
 		SelfTest: []Mutation{
+			{Name: "single-neighbour fast path of KNN panics on the empty tree", File: "model3d/coord_tree.go",
+				Old: "\tif k == 0 {\n\t\treturn nil\n\t}\n\tres := &knnResults{Max: k}", New: "\tif k == 0 {\n\t\treturn nil\n\t}\n\tif k == 1 {\n\t\treturn []Coord3D{c.NearestNeighbor(p)}\n\t}\n\tres := &knnResults{Max: k}", Rule: "NILRECV", Expect: "KNN"},
 			{Name: "k-nearest search of the empty tree dereferences nil", File: "model3d/coord_tree.go",
 				Old: "func (c *CoordTree) knn(p Coord3D, res *knnResults) {\n\tif c == nil {\n\t\treturn\n\t}\n\tdist := p.SquaredDist(c.Coord)", New: "func (c *CoordTree) knn(p Coord3D, res *knnResults) {\n\tif c.LessThan == nil && c.GreaterEqual == nil && res.Max < 0 {\n\t\treturn\n\t}\n\tdist := p.SquaredDist(c.Coord)",
 				More: [][2]string{{"\t\tc.LessThan.knn(p, res)\n\t} else {\n\t\tc.GreaterEqual.knn(p, res)\n\t}\n\t// Attempt", "\t\tif c.LessThan != nil {\n\t\t\tc.LessThan.knn(p, res)\n\t\t}\n\t} else if c.GreaterEqual != nil {\n\t\tc.GreaterEqual.knn(p, res)\n\t}\n\t// Attempt"},
